@@ -381,6 +381,28 @@ def rule_param(run):
                              'line is accepted (and one on the line can be rejected), so column_track lists columns the line does not reach'
                              % (end, X, used), where=fi.where(n), robust=True)
             else: run.unknown(key, 'no component of %s tested' % X, where=fi.where(n))
+    # the crossings are ordered by their distance from the start of the line, both in the same frame (the system is solved relative
+    # to polygon[0]; the crossing points are turned back into absolute coordinates by adding it)
+    ks = 'line_polygon_intersections :: crossings sorted by distance from the start of the line (same coordinate frame)'
+    lineparam = fi.params[1]
+    subs = [b for n in ast.walk(fi.node) if isinstance(n, ast.ListComp) for b in ast.walk(n.elt)
+            if isinstance(b, ast.Call) and call_name(b) == 'norm' and b.args and isinstance(b.args[0], ast.BinOp) and isinstance(b.args[0].op, ast.Sub)
+            and isinstance(b.args[0].left, ast.Name) and b.args[0].left.id in [x.id for x in ast.walk(n.generators[0].target) if isinstance(x, ast.Name)]]
+    if len(subs) != 1: run.unknown(ks, 'distance comprehension not found', where=fi.where())
+    else:
+        origin = roles.inline_locals(subs[0].args[0].right, fi.node.body)
+        refs = [nm for nm, v, st in roles.assignments(fi.node) if norm(v) == '%s[0]' % fi.params[0]]
+        absolute_points = any(isinstance(b, ast.BinOp) and isinstance(b.op, ast.Add) and isinstance(b.left, ast.Name) and b.left.id in refs for b in ast.walk(fi.node))
+        if norm(origin) == '%s[0]' % lineparam and absolute_points: run.ok(ks, norm(origin), where=fi.where(subs[0]))
+        elif absolute_points and norm(origin) == '%s[1]' % lineparam:
+            run.violated(ks, 'the crossings are ordered by their distance from the END of the line (`%s`): entry and exit of every column are swapped'
+                         % norm(origin), where=fi.where(subs[0]), robust=True)
+        elif absolute_points and isinstance(origin, ast.BinOp) and isinstance(origin.op, ast.Sub) and norm(origin.left) in ('%s[0]' % lineparam, '%s[1]' % lineparam) \
+                and norm(origin.right) in refs + ['%s[0]' % fi.params[0]]:
+            run.violated(ks, 'the crossing points are absolute coordinates but their distance is measured from `%s`, the start of the line relative to '
+                         'polygon[0]: the order of entry and exit depends on where the polygon lies, and column_track swaps them'
+                         % norm(subs[0].args[0].right), where=fi.where(subs[0]), robust=True)
+        else: run.unknown(ks, 'origin `%s`' % norm(origin), where=fi.where(subs[0]))
     units = [c for c in ast.walk(fi.node) if isinstance(c, ast.Call) and call_name(c) == 'in_unit' and len(c.args) == 1 and comp_index(c.args[0]) is not None]
     key = 'line_polygon_intersections :: the edge parameter is tested to lie on the edge'
     if not units: run.unknown(key, 'in_unit(%s[k]) not found' % X, where=fi.where())
